@@ -437,8 +437,15 @@ class LinState:
                 return add(args[0], args[1]) if len(args) == 2 else U
             if name in ("clip", "maximum", "minimum", "abs", "absolute", "sign", "sqrt", "exp", "log", "square", "power", "reciprocal", "sin", "cos",
                         "tanh", "cumprod", "prod", "max", "min", "amax", "amin", "std", "var", "linalg.norm", "norm", "sort", "log1p", "expm1", "isclose",
-                        "isnan", "logical_not", "any", "all", "argmax", "argmin"):
-                return N if any(v in (L, A, N) for v in allv) else U
+                        "isnan", "logical_not", "any", "all", "argmax", "argmin", "copysign", "fabs", "hypot", "arctan2", "floor", "ceil", "rint",
+                        "trunc", "fmax", "fmin", "heaviside", "nan_to_num", "sinh", "cosh", "tan", "arcsin", "arccos", "arctan", "exp2", "log2",
+                        "log10", "cbrt", "logaddexp", "logaddexp2", "float_power", "mod", "remainder", "fmod", "floor_divide", "isfinite", "isinf"):
+                # a non-linear function of a grad-dependent value is non-linear in grad; of grad-free values it is grad-free
+                if any(v in (L, A, N) for v in allv):
+                    return N
+                return C if allv and all(v in (C, Z) for v in allv) else U
+            if allv and all(v in (C, Z) for v in allv):
+                return C  # NumPy functions are pure: grad-free arguments give a grad-free value
             return U
         # method calls
         if isinstance(f, ast.Attribute):
